@@ -800,4 +800,108 @@ theorem renumbering_chain {β : Type} (N : Nat) (es : List (Nat × Nat)) (nodes 
     simp only [Array.getElem?_eq_getElem hi1, Option.getD_some, Array.getElem?_map, this, Option.map_some,
       Array.getElem?_eq_getElem hi2]
 
+/-! ### the band width -/
+
+theorem foldl_max_ge_init (f : Nat → Nat) (l : List Nat) (w : Nat) : w ≤ l.foldl (fun w c => max w (f c)) w := by
+  induction l generalizing w with
+  | nil => exact Nat.le_refl _
+  | cons c rest ih => simp only [List.foldl_cons]; exact Nat.le_trans (Nat.le_max_left _ _) (ih _)
+
+theorem foldl_max_ge_mem (f : Nat → Nat) (l : List Nat) (w : Nat) (c : Nat) (hc : c ∈ l) : f c ≤ l.foldl (fun w c => max w (f c)) w := by
+  induction l generalizing w with
+  | nil => cases hc
+  | cons d rest ih =>
+    simp only [List.foldl_cons]
+    rcases List.mem_cons.mp hc with h | h
+    · subst h; exact Nat.le_trans (Nat.le_max_right _ _) (foldl_max_ge_init f rest _)
+    · exact ih _ h
+
+/-- the double loop that computes the band width dominates the distance of the new numbers of every node and each of its listed neighbours -/
+theorem wide_ge (N : Nat) (oc : Array (List Nat)) (g : Nat → Nat → Nat) (a c : Nat) (ha : a < N) (hc : c ∈ oc.getD a []) :
+    g a c ≤ (List.range N).foldl (fun w a => (oc.getD a []).foldl (fun w c => max w (g a c)) w) 0 := by
+  have key : ∀ (l : List Nat) (w : Nat), a ∈ l → g a c ≤ l.foldl (fun w a => (oc.getD a []).foldl (fun w c => max w (g a c)) w) w := by
+    intro l
+    induction l with
+    | nil => intro w h; cases h
+    | cons b rest ih =>
+      intro w h
+      simp only [List.foldl_cons]
+      rcases List.mem_cons.mp h with e | e
+      · subst e
+        have h1 := foldl_max_ge_mem (g a) (oc.getD a []) w c hc
+        have h2 : ∀ (l : List Nat) (w : Nat), w ≤ l.foldl (fun w a => (oc.getD a []).foldl (fun w c => max w (g a c)) w) w := by
+          intro l
+          induction l with
+          | nil => intro w; exact Nat.le_refl _
+          | cons b rest ih2 => intro w; simp only [List.foldl_cons]; exact Nat.le_trans (foldl_max_ge_init _ _ _) (ih2 _)
+        exact Nat.le_trans h1 (h2 rest _)
+      · exact ih _ e
+  exact key (List.range N) 0 (List.mem_range.mpr ha)
+
+theorem pushAdj_mem (o : Array (List Nat)) (i v a c : Nat) (h : c ∈ o[a]?.getD []) : c ∈ (pushAdj o i v)[a]?.getD [] := by
+  unfold pushAdj
+  simp only [Array.getD_eq_getD_getElem?, getD_setL]
+  split
+  · rename_i hia; rw [hia.1]; exact List.mem_append_left _ h
+  · exact h
+
+theorem pushAdj_new (o : Array (List Nat)) (i v : Nat) (hi : i < o.size) : v ∈ (pushAdj o i v)[i]?.getD [] := by
+  unfold pushAdj
+  simp only [Array.getD_eq_getD_getElem?, getD_setL, hi, and_self, if_true]
+  simp
+
+theorem pushAdj_size (o : Array (List Nat)) (i v : Nat) : (pushAdj o i v).size = o.size := by
+  unfold pushAdj; simp
+
+/-- every line of the edge file puts each end point into the adjacency list of the other -/
+theorem ocon_mem (N : Nat) (es : List (Nat × Nat)) (e : Nat × Nat) (he : e ∈ es) (h1 : e.1 < N) (h2 : e.2 < N) :
+    e.2 ∈ (ocon N es)[e.1]?.getD [] ∧ e.1 ∈ (ocon N es)[e.2]?.getD [] := by
+  unfold ocon
+  have key : ∀ (l : List (Nat × Nat)) (o : Array (List Nat)), o.size = N →
+      (e ∈ l ∨ (e.2 ∈ o[e.1]?.getD [] ∧ e.1 ∈ o[e.2]?.getD [])) →
+      e.2 ∈ (l.foldl (fun o e => pushAdj (pushAdj o e.1 e.2) e.2 e.1) o)[e.1]?.getD [] ∧
+      e.1 ∈ (l.foldl (fun o e => pushAdj (pushAdj o e.1 e.2) e.2 e.1) o)[e.2]?.getD [] := by
+    intro l
+    induction l with
+    | nil => intro o _ h; rcases h with h | h; cases h; exact h
+    | cons d rest ih =>
+      intro o hsz h
+      simp only [List.foldl_cons]
+      apply ih _ (by rw [pushAdj_size, pushAdj_size]; exact hsz)
+      rcases h with h | h
+      · rcases List.mem_cons.mp h with e1 | e1
+        · subst e1
+          right
+          exact ⟨pushAdj_mem _ _ _ _ _ (pushAdj_new o e.1 e.2 (by omega)), pushAdj_new _ e.2 e.1 (by rw [pushAdj_size]; omega)⟩
+        · left; exact e1
+      · right
+        exact ⟨pushAdj_mem _ _ _ _ _ (pushAdj_mem _ _ _ _ _ h.1), pushAdj_mem _ _ _ _ _ (pushAdj_mem _ _ _ _ _ h.2)⟩
+  exact key es _ (by simp) (Or.inl he)
+
+/-- `BandWidth` is a true bound: for every line of the edge file the new numbers of its end points differ by less than the band width the
+    solver hands to `CBigLinProb::Create` - the hypothesis under which `SetValue` may restrict its scan to the band (C09
+    `setValue_solves_constrained`, `hband`) -/
+theorem cuthill_bandwidth (N : Nat) (es : List (Nat × Nat)) (r : Result) (hr : cuthill N es = some r)
+    (hes : ∀ e ∈ es, e.1 < N ∧ e.2 < N) (e : Nat × Nat) (he : e ∈ es) :
+    absDiff (r.newnum.getD e.1 0) (r.newnum.getD e.2 0) < r.bandwidth := by
+  unfold cuthill at hr
+  simp only [] at hr
+  split at hr
+  · cases hr
+  · rename_i s hs
+    cases hr
+    simp only []
+    have hmem := (ocon_mem N es e he (hes e he).1 (hes e he).2).1
+    have hsorted : e.2 ∈ ((ocon N es).map (sortAdj (fun c => (numcon N es).getD c 0))).getD e.1 [] := by
+      simp only [Array.getD_eq_getD_getElem?, Array.getElem?_map]
+      cases ho : (ocon N es)[e.1]? with
+      | none => rw [ho] at hmem; simp at hmem
+      | some l =>
+        rw [ho] at hmem
+        simp only [Option.map_some, Option.getD_some] at hmem ⊢
+        exact (sortAdj_perm _ l).mem_iff.mpr hmem
+    have := wide_ge N _ (fun a c => absDiff ((s.newnum.map (fun o => o.getD 0)).getD a 0) ((s.newnum.map (fun o => o.getD 0)).getD c 0))
+      e.1 e.2 (hes e he).1 hsorted
+    omega
+
 end XfemmVerif.CuthillLemmas
